@@ -64,7 +64,22 @@ def cases(ctx: Ctx):
           rec(["CO"], ["GCO"], 7, a=1.0), rec(["GCO"], ["CO"], 8, a=1.0)]
     (d / "grain.leeds").write_text("\n".join(encoders.leeds(dict(x, tmin=5.0, tmax=41000.0)) for x in gl) + "\n")
     (d / "n.naunet").write_text("\n".join(encoders.native(x) for x in [rec(["H", "H"], ["H2"], 100), rec(["H2", "CR"], ["H", "H"], 101), rec(["CO", "PHOTON"], ["C", "O"], 102, c=2.5)]) + "\n")
+    # grain charging in the native format, to go with a UCLCHEM gas-grain file: grain SPECIES under the rr07 models
+    # (written as ordinary two-body reactions: the rr07 models implement no recombination / electron-capture law)
+    charge = [rec(["GRAIN0", "e-"], ["GRAIN-"], 100), rec(["C+", "GRAIN-"], ["C", "GRAIN0"], 100, idx=2)]
+    (d / "charge.naunet").write_text("\n".join(encoders.native(x) for x in charge) + "\n")
+
+    def drop_grain_reactions(net):
+        """the dust objects are looked at (a script printing their parameters), then every reaction with a grain species is removed"""
+        _ = [g.model for g in net.grains]
+        net.remove_reaction([i for i, r_ in enumerate(net.reaction_list) if any(s_.is_grain for s_ in r_.reactants + r_.products)])
     out = [
+        ("uclchem + native grain charging, rr07x", dict(filelist=[str(d / "gas.ucl"), str(d / "charge.naunet")], fileformats=["uclchem", "naunet"], grain_model="rr07x"),
+         "cvode", "dense"),
+        ("uclchem + native grain charging, rr07", dict(filelist=[str(d / "gas_nothermal.ucl"), str(d / "charge.naunet")], fileformats=["uclchem", "naunet"],
+                                                      grain_model="rr07"), "odeint", "rosenbrock4"),
+        ("leeds grains+hh93, grain reactions removed after the dust was inspected", dict(filelist=str(d / "grain.leeds"), fileformats="leeds", grain_model="hh93",
+                                                                                          _prep=drop_grain_reactions), "cvode", "sparse"),
         ("kida", dict(filelist=str(data / "minimal.kida"), fileformats="kida"), "cvode", "dense"),
         ("umist", dict(filelist=str(data / "minimal.umist"), fileformats="umist"), "cvode", "sparse"),
         ("krome+cooling", dict(filelist=str(data / "primordial.krome"), fileformats="krome", cooling=["CIC_HI", "RC_HII"]), "odeint", "rosenbrock4"),
@@ -156,7 +171,11 @@ def main(ctx: Ctx) -> int:
     compile_jobs = []
     for ci, (label, kw, solver, method) in enumerate(cases(ctx)):
         try:
+            kw = dict(kw)
+            prep = kw.pop("_prep", None)
             net = Network(**kw)
+            if prep:
+                prep(net)
             out = ctx.scratch / "p" / str(ci)
             render(net, solver, method, out)
         except Exception as e:  # noqa
